@@ -37,6 +37,9 @@ def max_str_len(name):
     return dict(LEAVES)[name].Attributes.max_str_len
 
 
+NIL_LEAVES = [('nil_yes', Integer), ('nil_no', Integer(nillable=False)), ('nil_no_default', Integer(nillable=False, default=1)),
+              ('nil_yes_default', Unicode(default='x')), ('nil_no_str_default', Unicode(nillable=False, default='EUR'))]
+
 OCC = [(mn, mx) for mn in (0, 1, 2) for mx in (1, 2, 3, 'unbounded') if mx == 'unbounded' or mx >= mn]
 
 
@@ -44,7 +47,7 @@ class Holder(ComplexModel):
     __namespace__ = TNS
     _type_info = [(n, t.customize(min_occurs=0) if t.Attributes.min_occurs == 0 else t) for n, t in LEAVES] + \
                  [('occ_%s_%s' % g, Integer(min_occurs=g[0], max_occurs=g[1])) for g in OCC if g[0] == 0] + \
-                 [('hexbin', ByteArray(encoding='hex')), ('b64bin', ByteArray)]
+                 [('hexbin', ByteArray(encoding='hex')), ('b64bin', ByteArray)] + NIL_LEAVES
 
 
 def _occ_holder(g):
@@ -211,6 +214,34 @@ def schema_vs_soft(sx, name):
         x = xsd_accepts_text(sx, decl, text)
         return sx.Or(sx.And(x, out.accepted), sx.And(sx.Not(x), not out.accepted))
     return lxml_accepts(name, [text]) == out.accepted
+
+
+@harness('C06', params=[n for n, _ in NIL_LEAVES], functions=FUNCS,
+         bounds={'xsi:nil': 'the member sent as a nil element (xsi:nil = true / 1) or with a value; types nillable or not, with and '
+                            'without a declared default'})
+def schema_vs_soft_nil(sx, name):
+    """the published nillable attribute is what soft validation enforces: a nil element is accepted by both or by neither,
+    whether or not the type declares a default"""
+    T = dict(NIL_LEAVES)[name]
+    decl = member_decl('Holder', name)
+    lit = sx.choose('nil_literal', ['true', '1', None])
+    attrib = {'{http://www.w3.org/2001/XMLSchema-instance}nil': lit} if lit else {}
+    text = None if lit else ('5' if issubclass(T, Integer) else 'abc')
+    out = run_soft(lambda: SOFT.from_element(CTX, T, mk_element(sx, '{tns}v', text=text, attrib=attrib)))
+    sx.observe('soft', out.accepted)
+    if sx.symbolic:
+        x = decl['nillable'] or not lit
+        return x == out.accepted
+    from lxml import etree
+    _, compiled = schema()
+    f = etree.Element('{%s}f' % TNS, nsmap={None: TNS, 'xsi': 'http://www.w3.org/2001/XMLSchema-instance'})
+    h = etree.SubElement(f, '{%s}h' % TNS)
+    e = etree.SubElement(h, '{%s}%s' % (TNS, name))
+    if lit:
+        e.set('{http://www.w3.org/2001/XMLSchema-instance}nil', lit)
+    else:
+        e.text = text
+    return compiled.validate(f) == out.accepted
 
 
 @harness('C06', params=OCC, label=lambda g: 'min=%s max=%s' % g, functions=FUNCS,
@@ -479,3 +510,85 @@ def emitted_attributes_valid(sx, p):
         text = list(par.attrib.values())[0]
         ok.append(sx.eq(SOFT.from_unicode(T.type, text), v))
     return sx.And(*ok)
+
+
+# ---------------------------------------------------------------- facets of attribute types: schema vs soft validation
+class FacetAttrs(ComplexModel):
+    __namespace__ = TNS
+    _type_info = [('rank', XmlAttribute(Integer(ge=1, le=10))), ('zone', XmlAttribute(Unicode(pattern='[A-C]{2}'))),
+                  ('size', XmlAttribute(Unicode(values=['S', 'M', 'XL']))), ('code', XmlAttribute(Unicode(min_len=2, max_len=3))),
+                  ('body', Unicode)]
+
+
+class FSvc(Service):
+    @rpc(FacetAttrs, _returns=Integer)
+    def g2(ctx, fa):
+        return 1
+
+
+FAPP = Application([FSvc], TNS, in_protocol=XmlDocument(validator='soft'), out_protocol=XmlDocument())
+FCTX = fake_ctx(FAPP)
+FSOFT = XmlDocument(app=FAPP, validator='soft')
+_FXS = {}
+
+
+def _fschema():
+    if not _FXS:
+        xs = XmlSchema(FAPP.interface)
+        xs.build_validation_schema()
+        _FXS['root'] = xs.schema_dict[FAPP.interface.get_namespace_prefix(TNS)]
+        _FXS['all'] = list(xs.schema_dict.values())
+        _FXS['compiled'] = xs.validation_schema
+    return _FXS['root'], _FXS['compiled']
+
+
+def attr_decl(type_name, attr):
+    """advertised type of an attribute: dict(base=..., facets={...}) read from the generated schema"""
+    root, _ = _fschema()
+    ct = [c for c in root.findall(q('complexType')) if c.get('name') == type_name][0]
+    a = [x for x in ct.iter(q('attribute')) if x.get('name') == attr][0]
+    t = a.get('type')
+    out, facets, enum = {}, {}, []
+    while True:
+        pfx, name = t.split(':') if ':' in t else (None, t)
+        if a.nsmap.get(pfx) == XSD:
+            out['base'] = name
+            break
+        # (the anonymous types of attribute members are published in schema documents of their own)
+        st = [s for doc in _FXS['all'] for s in doc.findall(q('simpleType')) if s.get('name') == name][0]
+        r = st.find(q('restriction'))
+        for f in r:
+            k = f.tag.split('}')[1]
+            if k == 'enumeration':
+                enum.append(f.get('value'))
+            else:
+                facets.setdefault(k, f.get('value'))
+        t = r.get('base')
+        a = r
+    if enum:
+        facets['enumeration'] = enum
+    out['facets'] = facets
+    return out
+
+
+@harness('C06', params=['rank', 'zone', 'size', 'code'], functions=FUNCS + ['spyne.interface.xml_schema.model.xml_attribute_add'],
+         bounds={'text': 'attribute values of 1..3 characters (integers: over 0-9 and -; strings: over A B C S M X L 1) for attributes '
+                         'typed with a range, a pattern, an enumeration and a length restriction'})
+def schema_vs_soft_attributes(sx, name):
+    """the facets published for an attribute's type are what soft validation enforces on the attribute value"""
+    decl = attr_decl('FacetAttrs', name)
+    L = sx.choose('len', [1, 2, 3])
+    text = sx.text('t', L, alphabet='0123456789-' if name == 'rank' else 'ABCSMXL1')
+    el = mk_element(sx, '{tns}fa', attrib={name: text}, children=[mk_element(sx, '{tns}body', text='b')])
+    out = run_soft(lambda: FSOFT.from_element(FCTX, FacetAttrs, el))
+    sx.observe('soft', out.accepted)
+    if sx.symbolic:
+        x = xsd_accepts_text(sx, decl, text)
+        return sx.Or(sx.And(x, out.accepted), sx.And(sx.Not(x), not out.accepted))
+    from lxml import etree
+    _, compiled = _fschema()
+    g = etree.Element('{%s}g2' % TNS, nsmap={None: TNS})
+    fa = etree.SubElement(g, '{%s}fa' % TNS)
+    fa.set(name, text)
+    etree.SubElement(fa, '{%s}body' % TNS).text = 'b'
+    return compiled.validate(g) == out.accepted
